@@ -176,6 +176,7 @@ Inductive ecls :=
 | EMethodTypeUnknown | EMethodTypeNotMessage | EExtTagNotInRange | EProto3Extend | EMapEntryRef
 | EJsonNameExt | EJsonNameBrackets | EJsonNameNotString | EDefaultRepeated | EDefaultMessage
 | EDefaultBadValue | EJsonConflict | EEnumJsonConflict | EClosedEnumImplicit | EDefaultImplicit
+| EMapEnumFirstZero
 | EOther.
 
 Definition ecls_num (e : ecls) : N :=
@@ -196,7 +197,7 @@ Definition ecls_num (e : ecls) : N :=
   | EExtTagNotInRange => 51 | EProto3Extend => 52 | EMapEntryRef => 53 | EJsonNameExt => 54
   | EJsonNameBrackets => 55 | EJsonNameNotString => 56 | EDefaultRepeated => 57
   | EDefaultMessage => 58 | EDefaultBadValue => 59 | EJsonConflict => 60 | EEnumJsonConflict => 61
-  | EClosedEnumImplicit => 62 | EDefaultImplicit => 63 | EOther => 0
+  | EClosedEnumImplicit => 62 | EDefaultImplicit => 63 | EMapEnumFirstZero => 64 | EOther => 0
   end%N.
 Definition ecls_eqb (a b : ecls) : bool := N.eqb (ecls_num a) (ecls_num b).
 
